@@ -6,10 +6,12 @@ import (
 
 	"github.com/jsightapi/jsight-schema-go-library/bytes"
 	"github.com/jsightapi/jsight-schema-go-library/errors"
+	"github.com/jsightapi/jsight-schema-go-library/internal/json"
 	"github.com/jsightapi/jsight-schema-go-library/internal/lexeme"
 	"github.com/jsightapi/jsight-schema-go-library/internal/sync"
 	internalSchema "github.com/jsightapi/jsight-schema-go-library/notations/jschema/internal/schema"
 	"github.com/jsightapi/jsight-schema-go-library/notations/jschema/internal/schema/constraint"
+	"github.com/jsightapi/jsight-schema-go-library/notations/jschema/internal/validator"
 )
 
 type exampleBuilder struct {
@@ -174,9 +176,16 @@ func (b *exampleBuilder) buildObjectKey(k internalSchema.ObjectNodeKey) ([]byte,
 		return nil, errors.Format(errors.ErrUnknownType, k.Key)
 	}
 
-	ex, err := b.Build(typ.Schema().RootNode())
+	ex, err := b.keyOfType(k.Key, map[string]struct{}{})
 	if err != nil {
 		return nil, err
+	}
+	if ex == nil {
+		// No key is known to be accepted: the EXAMPLE of the type itself.
+		ex, err = b.Build(typ.Schema().RootNode())
+		if err != nil {
+			return nil, err
+		}
 	}
 	// Strip the delimiters of the string literal only: a quote next to them
 	// belongs to an escape sequence ("a\"") and stays in the key.
@@ -184,6 +193,64 @@ func (b *exampleBuilder) buildObjectKey(k internalSchema.ObjectNodeKey) ([]byte,
 		ex = ex[1 : len(ex)-1]
 	}
 	return ex, nil
+}
+
+// keyOfType returns the EXAMPLE of a key the string type used as a key shortcut
+// accepts, nil when it finds none. It chooses the key the way the validator
+// accepts one: a type which is a reference or a list of alternatives (@k = @k2,
+// @k = @a | @b, the rules "type": "@k2" and "or") stands for the keys of the types
+// it names, whatever its own EXAMPLE is, the first of them which has a key gives
+// it. A string type without rules stands for its EXAMPLE, the EXAMPLE of a string
+// type with rules is a key when it satisfies them (a rule-set of the "or" rule
+// borrows the EXAMPLE the rule is written on). visiting holds the names of the type
+// lists walked through already, each is walked through once.
+func (b *exampleBuilder) keyOfType(name string, visiting map[string]struct{}) ([]byte, error) {
+	typ, ok := b.types[name]
+	if !ok {
+		return nil, errors.Format(errors.ErrTypeNotFound, name)
+	}
+	node := typ.Schema().RootNode()
+
+	var names []string
+	mixed, isList := node.(*internalSchema.MixedValueNode)
+	if isList {
+		names = mixed.GetTypes()
+	} else if c, ok := node.Constraint(constraint.TypesListConstraintType).(*constraint.TypesList); ok {
+		names, isList = c.Names(), true
+	}
+	if isList {
+		visiting[name] = struct{}{}
+		for _, tn := range names {
+			if _, ok := visiting[tn]; ok {
+				continue
+			}
+			ex, err := b.keyOfType(tn, visiting)
+			if err != nil || ex != nil {
+				return ex, err
+			}
+		}
+		return nil, nil
+	}
+
+	if node.Type() != json.TypeString {
+		return nil, nil
+	}
+	if node.ConstraintMap().Len() != 0 && !satisfiesRules(node, node.Value()) {
+		return nil, nil
+	}
+	return node.Value(), nil
+}
+
+// satisfiesRules reports whether the value satisfies all the rules of the node.
+func satisfiesRules(node internalSchema.Node, value bytes.Bytes) (ok bool) {
+	defer func() {
+		if r := recover(); r != nil {
+			ok = false
+		}
+	}()
+
+	validator.ValidateLiteralValue(node, value)
+	return true
 }
 
 func (b *exampleBuilder) buildExampleForArrayNode(node *internalSchema.ArrayNode) ([]byte, error) {
